@@ -366,6 +366,8 @@ func main() {
 	c.Set("rule", "complete product config x PV 0..20 x is_valid x capability x withdrawal set (1 or 2 accounts over amount x delegated x registered x key/script); distinct = config x PV band x is_valid x capability x withdrawal-set class; observation = error type (WithdrawalNotDelegatedToDRepError / DRepDelegationStateUnavailableError, found with errors.As) returned by conway.UtxoValidateWithdrawals called directly and by any rule of the era's list called separately; unrelated rule errors are ignored by type")
 	c.Assume("ed25519/blake2b trusted; DRep delegation to 'always abstain' counts as delegated")
 	c.Assume("is_valid=false: expectation 'gate skipped' is taken from ARCHITECTURE.md; zero-amount, unregistered and script-hash accounts at PV10/11 have no expectation (the statement is about non-zero withdrawals from registered key-hash accounts)")
+	// free-running -race pass: concurrent callers on their own inputs (state the library shares between calls)
+	c.RaceAudit("c33")
 	c.Finish()
 }
 
